@@ -1,3 +1,5 @@
+import re
+
 from jinja2 import Environment, StrictUndefined, Undefined, contextfilter
 from jinja2.nativetypes import NativeEnvironment
 
@@ -54,14 +56,13 @@ class CellParser:
 
     def cleanse(self, nested_list):
         # Unescape escaped characters
-        TEMP_CHARACTER = "\1"
         if type(nested_list) is str:
             string = nested_list.strip()
-            string = string.replace(CellParser.ESCAPE_CHARACTER * 2, TEMP_CHARACTER)
-            for sep in CellParser.SEPARATORS:
-                string = string.replace(CellParser.ESCAPE_CHARACTER + sep, sep)
-            string = string.replace(TEMP_CHARACTER, CellParser.ESCAPE_CHARACTER)
-            return string
+            # A backslash followed by a backslash or a separator stands for that
+            # character; scan left to right so that any text survives unchanged.
+            specials = CellParser.ESCAPE_CHARACTER + "".join(CellParser.SEPARATORS)
+            pattern = re.escape(CellParser.ESCAPE_CHARACTER) + "([" + re.escape(specials) + "])"
+            return re.sub(pattern, lambda match: match.group(1), string)
         else:
             return [self.cleanse(item) for item in nested_list]
 
